@@ -88,7 +88,7 @@ class GridAtLevel(metaclass=ModelMeta):
         ids = index * f
         return ids[(slice(None),) * ids.ndim + (np.newaxis,) * self.ndim] + c[c_bc]
 
-    def neighborhood(self, index, window_size: Iterable[int]):
+    def neighborhood(self, index, window_size: Iterable[int], *, _wrap=True):
         index = self._parse_index(index)
         window_size = np.asarray(window_size)
         assert window_size.size == self.ndim
@@ -101,7 +101,9 @@ class GridAtLevel(metaclass=ModelMeta):
         )
         m_bc = (slice(None),) + (np.newaxis,) * (index.ndim - 1 + self.ndim)
         id_bc = (slice(None),) * index.ndim + (np.newaxis,) * self.ndim
-        res = (index[id_bc] + c[c_bc]) % self.shape[m_bc]
+        res = index[id_bc] + c[c_bc]
+        if _wrap:
+            res = res % self.shape[m_bc]
         return res.astype(index.dtype)
 
     def parent(self, index):
@@ -232,7 +234,8 @@ class OpenGridAtLevel(GridAtLevel):
         shp_bc = self.shape[
             (slice(None),) + (np.newaxis,) * (index.ndim - 1 + self.ndim)
         ]
-        return super().neighborhood(index, window_size).clip(0, (shp_bc - 1))
+        nbrs = super().neighborhood(index, window_size, _wrap=False)
+        return nbrs.clip(0, (shp_bc - 1))
 
     def parent(self, index):
         if self.parent_splits is None:
